@@ -537,6 +537,7 @@ class Case:
         self.gen_err = ""
         self.mismatches = []     # (doc index or None, code)
         self.decl_diff = None    # static tie: how the emitted declarations differ from the model
+        self.decl_text = None    # the model's declarations (Model/Render.v)
         self.wf = None           # WfP.wf_ty holds of every type the model generates for the case (None: not evaluated)
         self.batch_case = None
 
@@ -638,7 +639,8 @@ def run_cases(ctx, cases, name, rows_fn=None, chunk=40):
                 grp[ci].wf = False
             for ci, text in parse_assoc_str(vals["DD"]):
                 c = grp[ci]
-                if c.gen_ok and c.build_ok and not any(code in (3, 4, 5) for _, code in c.mismatches):
+                c.decl_text = text
+                if c.gen_ok and c.scan and not any(sc.get("parse_error") for sc in c.scan.values()) and not any(code in (3, 4, 5) for _, code in c.mismatches):
                     diff = decl_diff(text, c.scan)
                     if diff:
                         c.mismatches.append((None, 6))
